@@ -285,6 +285,9 @@ class Broker(object):
             self.consumers[ch].remove(tag)
         self.send(ch, spec.Basic.Cancel(consumer_tag=tag, nowait=True))
 
+    def h_Basic_Get(self, ch, fr):
+        self.send(ch, spec.Basic.GetEmpty())
+
     def h_Basic_Publish(self, ch, fr):
         self.content_state[ch] = [fr, None, b'']
 
